@@ -147,6 +147,7 @@ var osfsCase int
 // osfsExec: recipe "osfs <tree> <op> <args...>" — ops: realpath <0|1> <path>, resolvelink <target> <start>,
 // and the handle operations checked against the kernel: op <name> <path>
 func osfsExec(c *Ctx, op string) {
+	c.Begin(op) // a resolver that recurses without bound dies with a stack overflow, which no recover() catches
 	f := strings.Fields(op)
 	ns := parseTreeTok(f[1])
 	osfsCase++
@@ -242,7 +243,7 @@ func osfsExec(c *Ctx, op string) {
 			} else {
 				rel, inside := relOf(abs)
 				res = "ok " + hx(rel)
-				if !inside || strings.HasPrefix(rel, "..") {
+				if !inside || rel == ".." || strings.HasPrefix(rel, "../") {
 					c.PropFail("osfs-escape", "resolved path lies outside the base: "+abs, op)
 				}
 				// kernel agreement: when the kernel's own in-root resolution succeeds, it is the same object
@@ -298,6 +299,19 @@ func osfsExec(c *Ctx, op string) {
 				}
 			}
 		}()
+		// a link text of one ordinary segment read at the base dir names that entry: only the segment ".." itself is an
+		// excess "up" to clamp — "..data" or "..." are names
+		if !strings.Contains(target, "/") && target != "" && target != "." && target != ".." && target != start && !strings.Contains(start, "/") && pathpkg.Clean(start) != ".." {
+			isLink := false
+			for _, n := range ns {
+				if n.path == target && n.kind == 'L' {
+					isLink = true
+				}
+			}
+			if !isLink && res != "ok "+hx(target) {
+				c.PropFail("goesup-gate", fmt.Sprintf("ResolveLink(%q) from the top-level link %q answered %q: the segment %q does not leave the base and names the entry %q there", target, start, res, target, target), op)
+			}
+		}
 		if cl := pathpkg.Clean(start); (cl == ".." || strings.HasPrefix(cl, "../")) && res != "err fs-breakout" {
 			c.PropFail("goesup-gate", fmt.Sprintf("ResolveLink(%q) from the starting point %q (cleaned %q, leaves the base) answered %q instead of a breakout error", target, start, cl, res), op)
 		}
@@ -519,7 +533,7 @@ func changedPaths(a, b Fileset) []string {
 	return out
 }
 
-var linkTargets = []string{"a", "b", "d", "d/a", "../a", "..", ".", "/", "/a", "/d/a", "../../../a", "/../..", "nope", "nope/x", "l1", "l2", "d/l1", "./a", "a//b", "d/../a", "l2/../a", "d/sub/../../b", "l1/x", "/l2", "f/x", "a/", "/l1/../b"}
+var linkTargets = []string{"..data", "...", "/..x", "..a/b", "a", "b", "d", "d/a", "../a", "..", ".", "/", "/a", "/d/a", "../../../a", "/../..", "nope", "nope/x", "l1", "l2", "d/l1", "./a", "a//b", "d/../a", "l2/../a", "d/sub/../../b", "l1/x", "/l2", "f/x", "a/", "/l1/../b"}
 
 func (c *Ctx) genOsTree() []osNode {
 	names := []string{"a", "b", "d", "f", "l1", "l2", "sub"}
@@ -615,6 +629,12 @@ func osfsEngine(c *Ctx) {
 	}
 	// a directory link with an absolute target: its re-rooted twin inside the base holds a link, so does the host directory
 	corpus = append(corpus, []osNode{{"d", 'L', "@OUT@"}, {"@OUTREL@/l1", 'L', "inside-target"}, {"@OUTREL@/f", 'f', ""}, {"inside-target", 'f', ""}})
+	// lassos: a link that is not on the cycle leads into a cycle of two or three links (relative, absolute, through a directory)
+	corpus = append(corpus, []osNode{{"tail", 'L', "a"}, {"a", 'L', "b"}, {"b", 'L', "a"}, {"l1", 'L', "tail"}, {"d", 'd', ""}, {"d/l1", 'L', "../tail/x"}, {"l2", 'L', "/tail"}, {"sub", 'L', "d"}})
+	corpus = append(corpus, []osNode{{"l1", 'L', "c1"}, {"c1", 'L', "/c2"}, {"c2", 'L', "d/../c3"}, {"c3", 'L', "c1"}, {"d", 'd', ""}, {"l2", 'L', "d/../l1"}, {"d/l1", 'L', "../l2"}, {"sub", 'L', "c2"}})
+	// ordinary names that merely begin with two dots, met while resolution stands at the base (the k8s atomic-writer layout)
+	corpus = append(corpus, []osNode{{"..data", 'd', ""}, {"..data/f", 'f', ""}, {"current", 'L', "..data"}, {"l1", 'L', "/..data/f"}, {"l2", 'L', "..."},
+		{"...", 'f', ""}, {"d", 'd', ""}, {"d/l1", 'L', "../..data"}, {"sub", 'L', "d/../..data"}, {"f", 'f', ""}})
 	// link targets longer than NAME_MAX (up to PATH_MAX is legal): 267 bytes relative, 268 absolute, one in a chain
 	{
 		a, b, cc := strings.Repeat("a", 100), strings.Repeat("b", 100), strings.Repeat("c", 60)
@@ -680,6 +700,11 @@ func osfsEngine(c *Ctx) {
 		for i := 0; i < 4; i++ {
 			osfsExec(c, fmt.Sprintf("osfs %s op %s %s", tt, ops[c.Intn(len(ops))], hx(ps[c.Intn(len(ps))])))
 		}
+		if k < len(corpus) || k%5 == 0 {
+			for _, tg := range []string{"..data", "...", "..x", "name", ".hidden", "..2024_01"} {
+				osfsExec(c, fmt.Sprintf("osfs %s resolvelink %s %s", tt, hx(tg), hx("toplink")))
+			}
+		}
 		// ResolveLink from starting points that leave the base, with rooted and relative link texts
 		if k < len(corpus) || k%5 == 0 {
 			for _, st := range []string{"..", "../x", "a/../../x", "../../z", "../base2/l"} {
@@ -726,7 +751,7 @@ func osfsEngine(c *Ctx) {
 		}
 		if k < len(corpus) {
 			for _, o := range ops {
-				for _, p := range []string{"l1", "l2", "sub", "d/l1", "c0", "c7"} {
+				for _, p := range []string{"l1", "l2", "sub", "d/l1", "c0", "c7", "current/f", "current", "sub/f"} {
 					osfsExec(c, fmt.Sprintf("osfs %s op %s %s", tt, o, hx(p)))
 				}
 			}
